@@ -57,6 +57,15 @@ module Coq__1 = struct
 end
 include Coq__1
 
+(** val sub : nat -> nat -> nat **)
+
+let rec sub n0 m =
+  match n0 with
+  | O -> n0
+  | S k -> (match m with
+            | O -> n0
+            | S l -> sub k l)
+
 module Nat =
  struct
   (** val eqb : nat -> nat -> bool **)
@@ -69,6 +78,49 @@ module Nat =
     | S n' -> (match m with
                | O -> false
                | S m' -> eqb n' m')
+
+  (** val leb : nat -> nat -> bool **)
+
+  let rec leb n0 m =
+    match n0 with
+    | O -> true
+    | S n' -> (match m with
+               | O -> false
+               | S m' -> leb n' m')
+
+  (** val ltb : nat -> nat -> bool **)
+
+  let ltb n0 m =
+    leb (S n0) m
+
+  (** val max : nat -> nat -> nat **)
+
+  let rec max n0 m =
+    match n0 with
+    | O -> m
+    | S n' -> (match m with
+               | O -> n0
+               | S m' -> S (max n' m'))
+
+  (** val min : nat -> nat -> nat **)
+
+  let rec min n0 m =
+    match n0 with
+    | O -> O
+    | S n' -> (match m with
+               | O -> O
+               | S m' -> S (min n' m'))
+
+  (** val eq_dec : nat -> nat -> bool **)
+
+  let rec eq_dec n0 m =
+    match n0 with
+    | O -> (match m with
+            | O -> true
+            | S _ -> false)
+    | S n1 -> (match m with
+               | O -> false
+               | S n2 -> eq_dec n1 n2)
  end
 
 type positive =
@@ -517,6 +569,13 @@ let rec nth_error l = function
 | S n1 -> (match l with
            | [] -> None
            | _ :: l0 -> nth_error l0 n1)
+
+(** val remove : ('a1 -> 'a1 -> bool) -> 'a1 -> 'a1 list -> 'a1 list **)
+
+let rec remove eq_dec0 x = function
+| [] -> []
+| y :: tl0 ->
+  if eq_dec0 x y then remove eq_dec0 x tl0 else y :: (remove eq_dec0 x tl0)
 
 (** val rev : 'a1 list -> 'a1 list **)
 
@@ -2629,7 +2688,7 @@ let handle sv r =
           st.st_term))), no_touch)
       | None -> ((sv, (PStream ([], None))), no_touch))
    | RPullBg (opid, n0, max0) ->
-     let finish = fun r0 ->
+     let finish0 = fun r0 ->
        (((with_cons sv { c_streams = (sv_streams sv); c_waiters =
            sv.sv_cons.c_waiters; c_done =
            (app sv.sv_cons.c_done ((opid, r0) :: [])) }), PNone), no_touch)
@@ -2642,8 +2701,8 @@ let handle sv r =
                (park s.s_uid (CPull (opid, (as_u16 max0),
                  (N.add now pull_limit_ns))) sv.sv_cons)), PNone),
              (touch1 s.s_uid))
-         | None -> finish (Inl nOT_FOUND))
-      | None -> finish (Inl iNVALID_ARGUMENT))
+         | None -> finish0 (Inl nOT_FOUND))
+      | None -> finish0 (Inl iNVALID_ARGUMENT))
    | RJoin opid ->
      (match alookup N.eqb opid sv.sv_cons.c_done with
       | Some r0 ->
@@ -6136,3 +6195,1298 @@ let fc_case c =
 
 let fc_file text =
   join_nl (flat_map fc_case (cases_of (split_on nl text) None))
+
+type notif =
+| NNone
+| NOne
+| NAll
+
+type poll_res =
+| PollReadyPermit
+| PollReadyCalls
+| PollPending
+
+(** val poll_init : bool -> nat -> nat -> poll_res **)
+
+let poll_init permit0 calls1 snap =
+  if permit0
+  then PollReadyPermit
+  else if Nat.eqb snap calls1 then PollPending else PollReadyCalls
+
+type kind =
+| Unary
+| Stream
+
+type outcome0 =
+| OMessages of nat
+| OEmpty
+| OError
+| ONotFound
+
+type reply =
+| RMsgs of nat
+| RClosed
+
+type phase =
+| PU0 of bool
+| PU1 of nat * bool
+| PU2 of nat * reply option
+| PU3 of nat
+| PParked of notif
+| PDone of outcome0
+| PGone
+
+type cons0 = { ckind : kind; cmax : nat; cphase : phase; ctimed : bool;
+               cgot : nat }
+
+(** val with_phase : phase -> cons0 -> cons0 **)
+
+let with_phase p c =
+  { ckind = c.ckind; cmax = c.cmax; cphase = p; ctimed = c.ctimed; cgot =
+    c.cgot }
+
+(** val with_timed : cons0 -> cons0 **)
+
+let with_timed c =
+  { ckind = c.ckind; cmax = c.cmax; cphase = c.cphase; ctimed = true; cgot =
+    c.cgot }
+
+(** val add_got : nat -> cons0 -> cons0 **)
+
+let add_got k c =
+  { ckind = c.ckind; cmax = c.cmax; cphase = c.cphase; ctimed = c.ctimed;
+    cgot = (add c.cgot k) }
+
+type req0 =
+| RPost of nat
+| RPull0 of nat * nat
+| RNack of nat
+| RAck0 of nat
+| RDelete
+
+type state0 = { permit : bool; waiters : nat list; calls0 : nat;
+                backlog : nat; leased : nat; deleted : bool; exited : 
+                bool; mailbox : req0 list; conss : cons0 list }
+
+(** val init : state0 **)
+
+let init =
+  { permit = false; waiters = []; calls0 = O; backlog = O; leased = O;
+    deleted = false; exited = false; mailbox = []; conss = [] }
+
+(** val set_permit : bool -> state0 -> state0 **)
+
+let set_permit b s =
+  { permit = b; waiters = s.waiters; calls0 = s.calls0; backlog = s.backlog;
+    leased = s.leased; deleted = s.deleted; exited = s.exited; mailbox =
+    s.mailbox; conss = s.conss }
+
+(** val set_waiters : nat list -> state0 -> state0 **)
+
+let set_waiters w s =
+  { permit = s.permit; waiters = w; calls0 = s.calls0; backlog = s.backlog;
+    leased = s.leased; deleted = s.deleted; exited = s.exited; mailbox =
+    s.mailbox; conss = s.conss }
+
+(** val set_calls : nat -> state0 -> state0 **)
+
+let set_calls n0 s =
+  { permit = s.permit; waiters = s.waiters; calls0 = n0; backlog = s.backlog;
+    leased = s.leased; deleted = s.deleted; exited = s.exited; mailbox =
+    s.mailbox; conss = s.conss }
+
+(** val set_backlog : nat -> state0 -> state0 **)
+
+let set_backlog n0 s =
+  { permit = s.permit; waiters = s.waiters; calls0 = s.calls0; backlog = n0;
+    leased = s.leased; deleted = s.deleted; exited = s.exited; mailbox =
+    s.mailbox; conss = s.conss }
+
+(** val set_leased : nat -> state0 -> state0 **)
+
+let set_leased n0 s =
+  { permit = s.permit; waiters = s.waiters; calls0 = s.calls0; backlog =
+    s.backlog; leased = n0; deleted = s.deleted; exited = s.exited; mailbox =
+    s.mailbox; conss = s.conss }
+
+(** val set_deleted : bool -> state0 -> state0 **)
+
+let set_deleted b s =
+  { permit = s.permit; waiters = s.waiters; calls0 = s.calls0; backlog =
+    s.backlog; leased = s.leased; deleted = b; exited = s.exited; mailbox =
+    s.mailbox; conss = s.conss }
+
+(** val set_exited : bool -> state0 -> state0 **)
+
+let set_exited b s =
+  { permit = s.permit; waiters = s.waiters; calls0 = s.calls0; backlog =
+    s.backlog; leased = s.leased; deleted = s.deleted; exited = b; mailbox =
+    s.mailbox; conss = s.conss }
+
+(** val set_mailbox : req0 list -> state0 -> state0 **)
+
+let set_mailbox m s =
+  { permit = s.permit; waiters = s.waiters; calls0 = s.calls0; backlog =
+    s.backlog; leased = s.leased; deleted = s.deleted; exited = s.exited;
+    mailbox = m; conss = s.conss }
+
+(** val set_conss : cons0 list -> state0 -> state0 **)
+
+let set_conss l s =
+  { permit = s.permit; waiters = s.waiters; calls0 = s.calls0; backlog =
+    s.backlog; leased = s.leased; deleted = s.deleted; exited = s.exited;
+    mailbox = s.mailbox; conss = l }
+
+(** val get : state0 -> nat -> cons0 option **)
+
+let get s c =
+  nth_error s.conss c
+
+(** val upd0 : cons0 list -> nat -> (cons0 -> cons0) -> cons0 list **)
+
+let rec upd0 l c f =
+  match l with
+  | [] -> []
+  | x :: t -> (match c with
+               | O -> (f x) :: t
+               | S c' -> x :: (upd0 t c' f))
+
+(** val setc : nat -> (cons0 -> cons0) -> state0 -> state0 **)
+
+let setc c f s =
+  set_conss (upd0 s.conss c f) s
+
+(** val wake0 : notif -> cons0 -> cons0 **)
+
+let wake0 n0 cs =
+  match cs.cphase with
+  | PParked n1 ->
+    (match n1 with
+     | NNone -> with_phase (PParked n0) cs
+     | _ -> cs)
+  | _ -> cs
+
+(** val notify_one : state0 -> state0 **)
+
+let notify_one s =
+  match s.waiters with
+  | [] -> set_permit true s
+  | w :: ws -> set_waiters ws (setc w (wake0 NOne) s)
+
+(** val notify_waiters : state0 -> state0 **)
+
+let notify_waiters s =
+  set_calls (S s.calls0)
+    (set_waiters []
+      (set_conss
+        (fold_left (fun l w -> upd0 l w (wake0 NAll)) s.waiters s.conss) s))
+
+(** val finish : phase -> nat -> (cons0 -> cons0) -> state0 -> state0 **)
+
+let finish old c f s =
+  let s1 = setc c f s in
+  (match old with
+   | PParked n0 ->
+     (match n0 with
+      | NNone -> set_waiters (remove Nat.eq_dec c s1.waiters) s1
+      | NOne -> notify_one s1
+      | NAll -> s1)
+   | _ -> s1)
+
+(** val leave :
+    bool -> phase -> nat -> (cons0 -> cons0) -> state0 -> state0 **)
+
+let leave ho old c f s =
+  let s1 = finish old c f s in
+  (match old with
+   | PU1 (_, _) -> if ho then notify_one s1 else s1
+   | _ -> s1)
+
+(** val suspended : phase -> bool **)
+
+let suspended = function
+| PU0 owes -> if owes then false else true
+| PDone _ -> false
+| PGone -> false
+| _ -> true
+
+(** val closed_outcome : kind -> outcome0 **)
+
+let closed_outcome = function
+| Unary -> OError
+| Stream -> ONotFound
+
+(** val cons_step : bool -> nat -> state0 -> nat -> state0 option **)
+
+let cons_step ho k s c =
+  match get s c with
+  | Some cs ->
+    (match cs.cphase with
+     | PU0 o -> Some (setc c (with_phase (PU1 (s.calls0, o))) s)
+     | PU1 (snap, _) ->
+       if s.exited
+       then Some
+              (leave ho cs.cphase c
+                (with_phase (PDone (closed_outcome cs.ckind))) s)
+       else if Nat.ltb (length s.mailbox) k
+            then Some
+                   (set_mailbox (app s.mailbox ((RPull0 (c, cs.cmax)) :: []))
+                     (setc c (with_phase (PU2 (snap, None))) s))
+            else None
+     | PU2 (snap, r) ->
+       (match r with
+        | Some r0 ->
+          (match r0 with
+           | RMsgs k0 ->
+             (match k0 with
+              | O -> Some (setc c (with_phase (PU3 snap)) s)
+              | S k1 ->
+                (match cs.ckind with
+                 | Unary ->
+                   Some
+                     (finish cs.cphase c (fun x ->
+                       add_got (S k1)
+                         (with_phase (PDone (OMessages (S k1))) x)) s)
+                 | Stream ->
+                   Some
+                     (setc c (fun x ->
+                       add_got (S k1) (with_phase (PU3 snap) x)) s)))
+           | RClosed ->
+             Some
+               (finish cs.cphase c
+                 (with_phase (PDone (closed_outcome cs.ckind))) s))
+        | None -> None)
+     | PU3 snap ->
+       (match poll_init s.permit s.calls0 snap with
+        | PollReadyPermit ->
+          Some (set_permit false (setc c (with_phase (PU0 true)) s))
+        | PollReadyCalls -> Some (setc c (with_phase (PU0 true)) s)
+        | PollPending ->
+          Some
+            (set_waiters (app s.waiters (c :: []))
+              (setc c (with_phase (PParked NNone)) s)))
+     | PParked n0 ->
+       (match n0 with
+        | NNone -> None
+        | _ -> Some (setc c (with_phase (PU0 true)) s))
+     | _ -> None)
+  | None -> None
+
+(** val del_exit : bool -> state0 -> nat -> state0 option **)
+
+let del_exit ho s c =
+  if negb s.deleted
+  then None
+  else (match get s c with
+        | Some cs ->
+          (match cs.ckind with
+           | Unary ->
+             (match cs.cphase with
+              | PU0 owes ->
+                if owes
+                then None
+                else Some
+                       (leave ho (PU0 false) c (with_phase (PDone ONotFound))
+                         s)
+              | PDone _ -> None
+              | PGone -> None
+              | x -> Some (leave ho x c (with_phase (PDone ONotFound)) s))
+           | Stream ->
+             (match cs.cphase with
+              | PU3 snap ->
+                Some (leave ho (PU3 snap) c (with_phase (PDone ONotFound)) s)
+              | PParked n0 ->
+                Some
+                  (leave ho (PParked n0) c (with_phase (PDone ONotFound)) s)
+              | _ -> None))
+        | None -> None)
+
+(** val alive : phase -> bool **)
+
+let alive = function
+| PDone _ -> false
+| PGone -> false
+| _ -> true
+
+(** val timeout : bool -> state0 -> nat -> state0 option **)
+
+let timeout ho s c =
+  match get s c with
+  | Some cs ->
+    (match cs.ckind with
+     | Unary ->
+       if suspended cs.cphase
+       then Some
+              (leave ho cs.cphase c (fun x ->
+                with_timed (with_phase (PDone OEmpty) x)) s)
+       else None
+     | Stream -> None)
+  | None -> None
+
+(** val cancel : bool -> state0 -> nat -> state0 option **)
+
+let cancel ho s c =
+  match get s c with
+  | Some cs ->
+    if suspended cs.cphase
+    then Some (leave ho cs.cphase c (with_phase PGone) s)
+    else None
+  | None -> None
+
+(** val deliver_f : reply -> cons0 -> cons0 **)
+
+let deliver_f r cs =
+  match cs.cphase with
+  | PU2 (snap, r0) ->
+    (match r0 with
+     | Some _ -> cs
+     | None -> with_phase (PU2 (snap, (Some r))) cs)
+  | _ -> cs
+
+(** val deliver : nat -> reply -> state0 -> state0 **)
+
+let deliver c r s =
+  setc c (deliver_f r) s
+
+(** val requeue : nat -> state0 -> state0 **)
+
+let requeue j s =
+  let j' = Nat.min j s.leased in
+  let s1 = set_leased (sub s.leased j') (set_backlog (add s.backlog j') s) in
+  if Nat.ltb O (add s.backlog j') then notify_one s1 else s1
+
+(** val pull_count0 : nat -> nat -> nat **)
+
+let pull_count0 b m =
+  Nat.min b (Nat.max (S O) m)
+
+(** val turn : state0 -> state0 option **)
+
+let turn s =
+  if s.exited
+  then None
+  else (match s.mailbox with
+        | [] -> None
+        | r :: rest ->
+          let s0 = set_mailbox rest s in
+          Some
+          (if s.deleted
+           then (match r with
+                 | RPull0 (c, _) -> deliver c (RMsgs O) s0
+                 | _ -> s0)
+           else (match r with
+                 | RPost n0 -> notify_one (set_backlog (add s.backlog n0) s0)
+                 | RPull0 (c, m) ->
+                   let k = pull_count0 s.backlog m in
+                   let s1 =
+                     deliver c (RMsgs k)
+                       (set_leased (add s.leased k)
+                         (set_backlog (sub s.backlog k) s0))
+                   in
+                   if Nat.ltb O (sub s.backlog k) then notify_one s1 else s1
+                 | RNack j -> requeue j s0
+                 | RAck0 j ->
+                   set_leased (sub s.leased (Nat.min j s.leased)) s0
+                 | RDelete ->
+                   notify_waiters
+                     (set_deleted true (set_leased O (set_backlog O s0))))))
+
+(** val close_req : state0 -> req0 -> state0 **)
+
+let close_req s = function
+| RPull0 (c, _) -> deliver c RClosed s
+| _ -> s
+
+(** val actor_exit : state0 -> state0 option **)
+
+let actor_exit s =
+  if (&&) s.deleted (negb s.exited)
+  then Some
+         (set_mailbox [] (set_exited true (fold_left close_req s.mailbox s)))
+  else None
+
+type label =
+| LTurn
+| LExit
+| LCons of nat
+| LDelExit of nat
+| LEnq of req0
+| LExpire of nat
+| LArrive of kind * nat
+| LCancel of nat
+| LTimeout of nat
+
+(** val is_pull : req0 -> bool **)
+
+let is_pull = function
+| RPull0 (_, _) -> true
+| _ -> false
+
+(** val new_cons : kind -> nat -> cons0 **)
+
+let new_cons k m =
+  { ckind = k; cmax = m; cphase = (PU0 false); ctimed = false; cgot = O }
+
+(** val step0 : bool -> nat -> state0 -> label -> state0 option **)
+
+let step0 ho k s = function
+| LTurn -> turn s
+| LExit -> actor_exit s
+| LCons c -> cons_step ho k s c
+| LDelExit c -> del_exit ho s c
+| LEnq r ->
+  if (||) ((||) (is_pull r) s.exited) (negb (Nat.ltb (length s.mailbox) k))
+  then None
+  else Some (set_mailbox (app s.mailbox (r :: [])) s)
+| LExpire j ->
+  if s.exited then None else Some (if s.deleted then s else requeue j s)
+| LArrive (k0, m) -> Some (set_conss (app s.conss ((new_cons k0 m) :: [])) s)
+| LCancel c -> cancel ho s c
+| LTimeout c -> timeout ho s c
+
+(** val cs_ho : bool **)
+
+let cs_ho =
+  true
+
+(** val cs_K : nat **)
+
+let cs_K =
+  S (S (S (S (S (S (S (S (S (S (S (S (S (S (S (S O)))))))))))))))
+
+type cs_state = { cs_st : state0; cs_ids : (n * nat) list }
+
+(** val cs_init : cs_state **)
+
+let cs_init =
+  { cs_st = init; cs_ids = [] }
+
+(** val cs_lookup : n -> (n * nat) list -> nat option **)
+
+let rec cs_lookup id = function
+| [] -> None
+| p :: r -> let (k, c) = p in if N.eqb k id then Some c else cs_lookup id r
+
+(** val cs_poll_steps : nat -> state0 -> nat -> state0 **)
+
+let rec cs_poll_steps fuel s c =
+  match fuel with
+  | O -> s
+  | S f ->
+    (match cons_step cs_ho cs_K s c with
+     | Some s' -> cs_poll_steps f s' c
+     | None -> s)
+
+(** val cs_poll : state0 -> nat -> state0 **)
+
+let cs_poll s c =
+  let s1 =
+    cs_poll_steps (S (S (S (S (S (S (S (S (S (S (S (S (S (S (S (S (S (S (S (S
+      (S (S (S (S (S (S (S (S (S (S (S (S (S (S (S (S (S (S (S (S
+      O)))))))))))))))))))))))))))))))))))))))) s c
+  in
+  (match del_exit cs_ho s1 c with
+   | Some s2 -> s2
+   | None -> s1)
+
+(** val cs_turns : nat -> state0 -> state0 **)
+
+let rec cs_turns fuel s =
+  match fuel with
+  | O -> s
+  | S f -> (match turn s with
+            | Some s' -> cs_turns f s'
+            | None -> s)
+
+(** val cs_settle : state0 -> state0 **)
+
+let cs_settle s =
+  let s1 =
+    cs_turns (S (S (S (S (S (S (S (S (S (S (S (S (S (S (S (S (S (S (S (S (S
+      (S (S (S (S (S (S (S (S (S (S (S (S (S (S (S (S (S (S (S (S (S (S (S (S
+      (S (S (S (S (S (S (S (S (S (S (S (S (S (S (S (S (S (S (S (S (S (S (S (S
+      (S (S (S (S (S (S (S (S (S (S (S (S (S (S (S (S (S (S (S (S (S (S (S (S
+      (S (S (S (S (S (S (S (S (S (S (S (S (S (S (S (S (S (S (S (S (S (S (S (S
+      (S (S (S (S (S (S (S (S (S (S (S (S (S (S (S (S (S (S (S (S (S (S (S (S
+      (S (S (S (S (S (S (S (S (S (S (S (S (S (S (S (S (S (S (S (S (S (S (S (S
+      (S (S (S (S (S (S (S (S (S (S (S (S (S (S (S (S (S (S (S (S (S (S (S (S
+      (S (S (S (S (S (S (S (S (S (S (S (S (S (S (S (S (S (S (S (S (S (S (S (S
+      (S (S (S (S (S (S (S (S (S (S (S (S (S (S (S (S (S (S (S (S (S (S (S (S
+      (S (S (S (S (S (S (S (S (S (S (S (S (S (S (S (S (S (S (S (S (S (S (S (S
+      (S (S (S (S (S (S (S (S (S (S (S (S (S (S (S (S (S (S (S (S (S (S (S (S
+      (S (S (S (S (S (S (S (S (S (S (S (S (S (S (S (S (S (S (S (S (S (S (S (S
+      (S (S (S (S (S (S (S (S (S (S (S (S (S (S (S (S (S (S (S (S (S (S (S (S
+      (S (S (S (S (S (S (S (S (S (S (S (S (S (S (S (S (S (S (S (S (S (S (S (S
+      (S (S (S (S (S (S (S (S (S (S (S (S (S (S (S (S (S (S (S (S (S (S (S (S
+      (S (S (S (S (S (S (S (S (S (S (S (S (S (S (S (S (S (S (S
+      O))))))))))))))))))))))))))))))))))))))))))))))))))))))))))))))))))))))))))))))))))))))))))))))))))))))))))))))))))))))))))))))))))))))))))))))))))))))))))))))))))))))))))))))))))))))))))))))))))))))))))))))))))))))))))))))))))))))))))))))))))))))))))))))))))))))))))))))))))))))))))))))))))))))))))))))))))))))))))))))))))))))))))))))))))))))))))))))))))))))))))))))))))))))))))))))))))))))))))))))))
+      s
+  in
+  (match actor_exit s1 with
+   | Some s2 -> s2
+   | None -> s1)
+
+(** val cs_request : req0 -> state0 -> state0 **)
+
+let cs_request r s =
+  let s1 = cs_settle s in
+  (match step0 cs_ho cs_K s1 (LEnq r) with
+   | Some s2 -> cs_settle s2
+   | None -> s1)
+
+(** val cs_fill : nat -> state0 -> state0 **)
+
+let rec cs_fill n0 s =
+  match n0 with
+  | O -> s
+  | S k ->
+    (match step0 cs_ho cs_K s (LEnq (RAck0 O)) with
+     | Some s' -> cs_fill k s'
+     | None -> s)
+
+(** val cs_phase_line : state0 -> nat -> str **)
+
+let cs_phase_line s c =
+  match get s c with
+  | Some cs ->
+    (match cs.cphase with
+     | PDone o ->
+       (match o with
+        | OMessages k ->
+          join_sp
+            ((kw (String ((Ascii (false, false, false, true, true, false,
+               true, false)), (String ((Ascii (true, false, false, false,
+               true, false, true, false)), EmptyString))))) :: ((kw (String
+                                                                  ((Ascii
+                                                                  (false,
+                                                                  false,
+                                                                  true,
+                                                                  false,
+                                                                  false,
+                                                                  true, true,
+                                                                  false)),
+                                                                  (String
+                                                                  ((Ascii
+                                                                  (true,
+                                                                  true, true,
+                                                                  true,
+                                                                  false,
+                                                                  true, true,
+                                                                  false)),
+                                                                  (String
+                                                                  ((Ascii
+                                                                  (false,
+                                                                  true, true,
+                                                                  true,
+                                                                  false,
+                                                                  true, true,
+                                                                  false)),
+                                                                  (String
+                                                                  ((Ascii
+                                                                  (true,
+                                                                  false,
+                                                                  true,
+                                                                  false,
+                                                                  false,
+                                                                  true, true,
+                                                                  false)),
+                                                                  EmptyString))))))))) :: (
+            (kw (String ((Ascii (false, false, false, false, true, true,
+              false, false)), EmptyString))) :: ((r_num (N.of_nat k)) :: []))))
+        | OEmpty ->
+          join_sp
+            ((kw (String ((Ascii (false, false, false, true, true, false,
+               true, false)), (String ((Ascii (true, false, false, false,
+               true, false, true, false)), EmptyString))))) :: ((kw (String
+                                                                  ((Ascii
+                                                                  (false,
+                                                                  false,
+                                                                  true,
+                                                                  false,
+                                                                  false,
+                                                                  true, true,
+                                                                  false)),
+                                                                  (String
+                                                                  ((Ascii
+                                                                  (true,
+                                                                  true, true,
+                                                                  true,
+                                                                  false,
+                                                                  true, true,
+                                                                  false)),
+                                                                  (String
+                                                                  ((Ascii
+                                                                  (false,
+                                                                  true, true,
+                                                                  true,
+                                                                  false,
+                                                                  true, true,
+                                                                  false)),
+                                                                  (String
+                                                                  ((Ascii
+                                                                  (true,
+                                                                  false,
+                                                                  true,
+                                                                  false,
+                                                                  false,
+                                                                  true, true,
+                                                                  false)),
+                                                                  EmptyString))))))))) :: (
+            (kw (String ((Ascii (false, false, false, false, true, true,
+              false, false)), EmptyString))) :: ((kw (String ((Ascii (false,
+                                                   false, false, false, true,
+                                                   true, false, false)),
+                                                   EmptyString))) :: []))))
+        | _ ->
+          join_sp
+            ((kw (String ((Ascii (false, false, false, true, true, false,
+               true, false)), (String ((Ascii (true, false, false, false,
+               true, false, true, false)), EmptyString))))) :: ((kw (String
+                                                                  ((Ascii
+                                                                  (false,
+                                                                  false,
+                                                                  true,
+                                                                  false,
+                                                                  false,
+                                                                  true, true,
+                                                                  false)),
+                                                                  (String
+                                                                  ((Ascii
+                                                                  (true,
+                                                                  true, true,
+                                                                  true,
+                                                                  false,
+                                                                  true, true,
+                                                                  false)),
+                                                                  (String
+                                                                  ((Ascii
+                                                                  (false,
+                                                                  true, true,
+                                                                  true,
+                                                                  false,
+                                                                  true, true,
+                                                                  false)),
+                                                                  (String
+                                                                  ((Ascii
+                                                                  (true,
+                                                                  false,
+                                                                  true,
+                                                                  false,
+                                                                  false,
+                                                                  true, true,
+                                                                  false)),
+                                                                  EmptyString))))))))) :: (
+            (kw (String ((Ascii (true, false, true, false, false, true, true,
+              false)), (String ((Ascii (false, true, false, false, true,
+              true, true, false)), (String ((Ascii (false, true, false,
+              false, true, true, true, false)), EmptyString))))))) :: []))))
+     | PGone ->
+       kw (String ((Ascii (true, true, true, true, true, true, false,
+         false)), EmptyString))
+     | _ ->
+       join_sp
+         ((kw (String ((Ascii (false, false, false, true, true, false, true,
+            false)), (String ((Ascii (true, false, false, false, true, false,
+            true, false)), EmptyString))))) :: ((kw (String ((Ascii (false,
+                                                  false, false, false, true,
+                                                  true, true, false)),
+                                                  (String ((Ascii (true,
+                                                  false, true, false, false,
+                                                  true, true, false)),
+                                                  (String ((Ascii (false,
+                                                  true, true, true, false,
+                                                  true, true, false)),
+                                                  (String ((Ascii (false,
+                                                  false, true, false, false,
+                                                  true, true, false)),
+                                                  (String ((Ascii (true,
+                                                  false, false, true, false,
+                                                  true, true, false)),
+                                                  (String ((Ascii (false,
+                                                  true, true, true, false,
+                                                  true, true, false)),
+                                                  (String ((Ascii (true,
+                                                  true, true, false, false,
+                                                  true, true, false)),
+                                                  EmptyString))))))))))))))) :: [])))
+  | None ->
+    kw (String ((Ascii (true, true, true, true, true, true, false, false)),
+      EmptyString))
+
+(** val cs_bad : str **)
+
+let cs_bad =
+  (Npos (XI (XI (XI (XI (XI XH)))))) :: []
+
+(** val cs_finished : state0 -> nat -> bool **)
+
+let cs_finished s c =
+  match get s c with
+  | Some cs -> negb (alive cs.cphase)
+  | None -> true
+
+(** val cs_forget : n -> (n * nat) list -> (n * nat) list **)
+
+let rec cs_forget id = function
+| [] -> []
+| p :: r ->
+  let (k, c) = p in if N.eqb k id then r else (k, c) :: (cs_forget id r)
+
+(** val cs_op : cs_state -> str list -> cs_state * str **)
+
+let cs_op st ts =
+  let s = st.cs_st in
+  (match ts with
+   | [] -> (st, cs_bad)
+   | o :: args ->
+     if is_kw (String ((Ascii (true, true, false, false, true, false, true,
+          false)), (String ((Ascii (true, false, true, false, false, false,
+          true, false)), (String ((Ascii (true, false, true, false, false,
+          false, true, false)), (String ((Ascii (false, false, true, false,
+          false, false, true, false)), EmptyString)))))))) o
+     then (st,
+            (kw (String ((Ascii (true, true, false, false, true, false, true,
+              false)), (String ((Ascii (true, false, true, false, false,
+              false, true, false)), (String ((Ascii (true, false, true,
+              false, false, false, true, false)), (String ((Ascii (false,
+              false, true, false, false, false, true, false)),
+              EmptyString))))))))))
+     else if is_kw (String ((Ascii (true, true, false, false, false, false,
+               true, false)), (String ((Ascii (false, false, true, false,
+               true, false, true, false)), EmptyString)))) o
+          then (st,
+                 (kw (String ((Ascii (true, true, false, false, false, false,
+                   true, false)), (String ((Ascii (false, false, true, false,
+                   true, false, true, false)), EmptyString))))))
+          else if is_kw (String ((Ascii (true, true, false, false, false,
+                    false, true, false)), (String ((Ascii (true, true, false,
+                    false, true, false, true, false)), EmptyString)))) o
+               then (st,
+                      (kw (String ((Ascii (true, true, false, false, false,
+                        false, true, false)), (String ((Ascii (true, true,
+                        false, false, true, false, true, false)),
+                        EmptyString))))))
+               else if is_kw (String ((Ascii (false, false, false, true,
+                         true, false, true, false)), (String ((Ascii (false,
+                         true, true, true, false, false, true, false)),
+                         EmptyString)))) o
+                    then (match args with
+                          | [] -> (st, cs_bad)
+                          | id :: l ->
+                            (match l with
+                             | [] -> (st, cs_bad)
+                             | _ :: l0 ->
+                               (match l0 with
+                                | [] -> (st, cs_bad)
+                                | mx :: l1 ->
+                                  (match l1 with
+                                   | [] ->
+                                     (match p_nat id with
+                                      | Some i ->
+                                        (match p_nat mx with
+                                         | Some m ->
+                                           let c = length s.conss in
+                                           (match step0 cs_ho cs_K s (LArrive
+                                                    (Unary, (N.to_nat m))) with
+                                            | Some s' ->
+                                              ({ cs_st = s'; cs_ids = ((i,
+                                                c) :: st.cs_ids) },
+                                                (kw (String ((Ascii (false,
+                                                  false, false, true, true,
+                                                  false, true, false)),
+                                                  (String ((Ascii (false,
+                                                  true, true, true, false,
+                                                  false, true, false)),
+                                                  EmptyString))))))
+                                            | None -> (st, cs_bad))
+                                         | None -> (st, cs_bad))
+                                      | None -> (st, cs_bad))
+                                   | _ :: _ -> (st, cs_bad)))))
+                    else if is_kw (String ((Ascii (false, false, false, true,
+                              true, false, true, false)), (String ((Ascii
+                              (true, false, false, false, true, false, true,
+                              false)), EmptyString)))) o
+                         then (match args with
+                               | [] -> (st, cs_bad)
+                               | id :: l ->
+                                 (match l with
+                                  | [] ->
+                                    (match p_nat id with
+                                     | Some i ->
+                                       (match cs_lookup i st.cs_ids with
+                                        | Some c ->
+                                          let s' = cs_poll s c in
+                                          ({ cs_st = s'; cs_ids =
+                                          (if cs_finished s' c
+                                           then cs_forget i st.cs_ids
+                                           else st.cs_ids) },
+                                          (cs_phase_line s' c))
+                                        | None ->
+                                          (st,
+                                            (join_sp
+                                              ((kw (String ((Ascii (false,
+                                                 false, false, true, true,
+                                                 false, true, false)),
+                                                 (String ((Ascii (true,
+                                                 false, false, false, true,
+                                                 false, true, false)),
+                                                 EmptyString))))) :: (
+                                              (kw (String ((Ascii (true,
+                                                true, true, false, false,
+                                                true, true, false)), (String
+                                                ((Ascii (true, true, true,
+                                                true, false, true, true,
+                                                false)), (String ((Ascii
+                                                (false, true, true, true,
+                                                false, true, true, false)),
+                                                (String ((Ascii (true, false,
+                                                true, false, false, true,
+                                                true, false)),
+                                                EmptyString))))))))) :: [])))))
+                                     | None -> (st, cs_bad))
+                                  | _ :: _ -> (st, cs_bad)))
+                         else if is_kw (String ((Ascii (false, false, false,
+                                   true, true, false, true, false)), (String
+                                   ((Ascii (false, false, true, false, false,
+                                   false, true, false)), EmptyString)))) o
+                              then (match args with
+                                    | [] -> (st, cs_bad)
+                                    | id :: l ->
+                                      (match l with
+                                       | [] ->
+                                         (match p_nat id with
+                                          | Some i ->
+                                            (match cs_lookup i st.cs_ids with
+                                             | Some c ->
+                                               (match cancel cs_ho s c with
+                                                | Some s' ->
+                                                  ({ cs_st = s'; cs_ids =
+                                                    (cs_forget i st.cs_ids) },
+                                                    (kw (String ((Ascii
+                                                      (false, false, false,
+                                                      true, true, false,
+                                                      true, false)), (String
+                                                      ((Ascii (false, false,
+                                                      true, false, false,
+                                                      false, true, false)),
+                                                      EmptyString))))))
+                                                | None -> (st, cs_bad))
+                                             | None ->
+                                               (st,
+                                                 (join_sp
+                                                   ((kw (String ((Ascii
+                                                      (false, false, false,
+                                                      true, true, false,
+                                                      true, false)), (String
+                                                      ((Ascii (false, false,
+                                                      true, false, false,
+                                                      false, true, false)),
+                                                      EmptyString))))) :: (
+                                                   (kw (String ((Ascii (true,
+                                                     true, true, false,
+                                                     false, true, true,
+                                                     false)), (String ((Ascii
+                                                     (true, true, true, true,
+                                                     false, true, true,
+                                                     false)), (String ((Ascii
+                                                     (false, true, true,
+                                                     true, false, true, true,
+                                                     false)), (String ((Ascii
+                                                     (true, false, true,
+                                                     false, false, true,
+                                                     true, false)),
+                                                     EmptyString))))))))) :: [])))))
+                                          | None -> (st, cs_bad))
+                                       | _ :: _ -> (st, cs_bad)))
+                              else if is_kw (String ((Ascii (false, false,
+                                        false, true, true, false, true,
+                                        false)), (String ((Ascii (false,
+                                        true, true, false, false, false,
+                                        true, false)), EmptyString)))) o
+                                   then (match args with
+                                         | [] -> (st, cs_bad)
+                                         | _ :: l ->
+                                           (match l with
+                                            | [] -> (st, cs_bad)
+                                            | n0 :: l0 ->
+                                              (match l0 with
+                                               | [] ->
+                                                 (match p_nat n0 with
+                                                  | Some k ->
+                                                    ({ cs_st =
+                                                      (cs_fill (N.to_nat k) s);
+                                                      cs_ids = st.cs_ids },
+                                                      (kw (String ((Ascii
+                                                        (false, false, false,
+                                                        true, true, false,
+                                                        true, false)),
+                                                        (String ((Ascii
+                                                        (false, true, true,
+                                                        false, false, false,
+                                                        true, false)),
+                                                        EmptyString))))))
+                                                  | None -> (st, cs_bad))
+                                               | _ :: _ -> (st, cs_bad))))
+                                   else if is_kw (String ((Ascii (false,
+                                             false, false, true, true, false,
+                                             true, false)), (String ((Ascii
+                                             (false, false, true, false,
+                                             true, false, true, false)),
+                                             EmptyString)))) o
+                                        then ({ cs_st = (cs_settle s);
+                                               cs_ids = st.cs_ids },
+                                               (kw (String ((Ascii (false,
+                                                 false, false, true, true,
+                                                 false, true, false)),
+                                                 (String ((Ascii (false,
+                                                 false, true, false, true,
+                                                 false, true, false)),
+                                                 EmptyString))))))
+                                        else if is_kw (String ((Ascii (false,
+                                                  false, false, false, true,
+                                                  false, true, false)),
+                                                  (String ((Ascii (true,
+                                                  false, true, false, true,
+                                                  false, true, false)),
+                                                  (String ((Ascii (false,
+                                                  true, false, false, false,
+                                                  false, true, false)),
+                                                  (String ((Ascii (false,
+                                                  true, true, true, false,
+                                                  false, true, false)),
+                                                  EmptyString)))))))) o
+                                             then (match args with
+                                                   | [] -> (st, cs_bad)
+                                                   | _ :: l ->
+                                                     (match l with
+                                                      | [] -> (st, cs_bad)
+                                                      | n0 :: l0 ->
+                                                        (match l0 with
+                                                         | [] -> (st, cs_bad)
+                                                         | _ :: l1 ->
+                                                           (match l1 with
+                                                            | [] ->
+                                                              (match 
+                                                               p_nat n0 with
+                                                               | Some k ->
+                                                                 ({ cs_st =
+                                                                   (cs_request
+                                                                    (RPost
+                                                                    (N.to_nat
+                                                                    k)) s);
+                                                                   cs_ids =
+                                                                   st.cs_ids },
+                                                                   (kw
+                                                                    (String
+                                                                    ((Ascii
+                                                                    (false,
+                                                                    false,
+                                                                    false,
+                                                                    false,
+                                                                    true,
+                                                                    false,
+                                                                    true,
+                                                                    false)),
+                                                                    (String
+                                                                    ((Ascii
+                                                                    (true,
+                                                                    false,
+                                                                    true,
+                                                                    false,
+                                                                    true,
+                                                                    false,
+                                                                    true,
+                                                                    false)),
+                                                                    (String
+                                                                    ((Ascii
+                                                                    (false,
+                                                                    true,
+                                                                    false,
+                                                                    false,
+                                                                    false,
+                                                                    false,
+                                                                    true,
+                                                                    false)),
+                                                                    EmptyString))))))))
+                                                               | None ->
+                                                                 (st, cs_bad))
+                                                            | _ :: _ ->
+                                                              (st, cs_bad)))))
+                                             else if is_kw (String ((Ascii
+                                                       (true, false, false,
+                                                       false, false, false,
+                                                       true, false)), (String
+                                                       ((Ascii (false, false,
+                                                       true, false, false,
+                                                       false, true, false)),
+                                                       (String ((Ascii
+                                                       (false, true, true,
+                                                       false, true, false,
+                                                       true, false)),
+                                                       EmptyString)))))) o
+                                                  then let s1 = cs_settle s in
+                                                       let s2 =
+                                                         if Nat.eqb s1.leased
+                                                              O
+                                                         then s1
+                                                         else (match 
+                                                               step0 cs_ho
+                                                                 cs_K s1
+                                                                 (LExpire
+                                                                 s1.leased) with
+                                                               | Some x -> x
+                                                               | None -> s1)
+                                                       in
+                                                       ({ cs_st =
+                                                       (cs_settle s2);
+                                                       cs_ids = st.cs_ids },
+                                                       (kw (String ((Ascii
+                                                         (true, false, false,
+                                                         false, false, false,
+                                                         true, false)),
+                                                         (String ((Ascii
+                                                         (false, false, true,
+                                                         false, false, false,
+                                                         true, false)),
+                                                         (String ((Ascii
+                                                         (false, true, true,
+                                                         false, true, false,
+                                                         true, false)),
+                                                         EmptyString))))))))
+                                                  else if is_kw (String
+                                                            ((Ascii (false,
+                                                            false, true,
+                                                            false, false,
+                                                            false, true,
+                                                            false)), (String
+                                                            ((Ascii (true,
+                                                            true, false,
+                                                            false, true,
+                                                            false, true,
+                                                            false)),
+                                                            EmptyString)))) o
+                                                       then ({ cs_st =
+                                                              (cs_request
+                                                                RDelete s);
+                                                              cs_ids =
+                                                              st.cs_ids },
+                                                              (kw (String
+                                                                ((Ascii
+                                                                (false,
+                                                                false, true,
+                                                                false, false,
+                                                                false, true,
+                                                                false)),
+                                                                (String
+                                                                ((Ascii
+                                                                (true, true,
+                                                                false, false,
+                                                                true, false,
+                                                                true,
+                                                                false)),
+                                                                EmptyString))))))
+                                                       else if is_kw (String
+                                                                 ((Ascii
+                                                                 (true, true,
+                                                                 false,
+                                                                 false, true,
+                                                                 false, true,
+                                                                 false)),
+                                                                 (String
+                                                                 ((Ascii
+                                                                 (false,
+                                                                 false, true,
+                                                                 false, true,
+                                                                 false, true,
+                                                                 false)),
+                                                                 (String
+                                                                 ((Ascii
+                                                                 (true,
+                                                                 false,
+                                                                 false,
+                                                                 false,
+                                                                 false,
+                                                                 false, true,
+                                                                 false)),
+                                                                 (String
+                                                                 ((Ascii
+                                                                 (false,
+                                                                 false, true,
+                                                                 false, true,
+                                                                 false, true,
+                                                                 false)),
+                                                                 (String
+                                                                 ((Ascii
+                                                                 (true, true,
+                                                                 false,
+                                                                 false, true,
+                                                                 false, true,
+                                                                 false)),
+                                                                 EmptyString))))))))))
+                                                                 o
+                                                            then let s1 =
+                                                                   cs_settle s
+                                                                 in
+                                                                 ({ cs_st =
+                                                                 s1; cs_ids =
+                                                                 st.cs_ids },
+                                                                 (if s1.deleted
+                                                                  then 
+                                                                    join_sp
+                                                                    ((kw
+                                                                    (String
+                                                                    ((Ascii
+                                                                    (true,
+                                                                    true,
+                                                                    false,
+                                                                    false,
+                                                                    true,
+                                                                    false,
+                                                                    true,
+                                                                    false)),
+                                                                    (String
+                                                                    ((Ascii
+                                                                    (false,
+                                                                    false,
+                                                                    true,
+                                                                    false,
+                                                                    true,
+                                                                    false,
+                                                                    true,
+                                                                    false)),
+                                                                    (String
+                                                                    ((Ascii
+                                                                    (true,
+                                                                    false,
+                                                                    false,
+                                                                    false,
+                                                                    false,
+                                                                    false,
+                                                                    true,
+                                                                    false)),
+                                                                    (String
+                                                                    ((Ascii
+                                                                    (false,
+                                                                    false,
+                                                                    true,
+                                                                    false,
+                                                                    true,
+                                                                    false,
+                                                                    true,
+                                                                    false)),
+                                                                    (String
+                                                                    ((Ascii
+                                                                    (true,
+                                                                    true,
+                                                                    false,
+                                                                    false,
+                                                                    true,
+                                                                    false,
+                                                                    true,
+                                                                    false)),
+                                                                    EmptyString))))))))))) :: (
+                                                                    (kw
+                                                                    (String
+                                                                    ((Ascii
+                                                                    (true,
+                                                                    false,
+                                                                    true,
+                                                                    false,
+                                                                    true,
+                                                                    true,
+                                                                    false,
+                                                                    false)),
+                                                                    EmptyString))) :: []))
+                                                                  else 
+                                                                    join_sp
+                                                                    ((kw
+                                                                    (String
+                                                                    ((Ascii
+                                                                    (true,
+                                                                    true,
+                                                                    false,
+                                                                    false,
+                                                                    true,
+                                                                    false,
+                                                                    true,
+                                                                    false)),
+                                                                    (String
+                                                                    ((Ascii
+                                                                    (false,
+                                                                    false,
+                                                                    true,
+                                                                    false,
+                                                                    true,
+                                                                    false,
+                                                                    true,
+                                                                    false)),
+                                                                    (String
+                                                                    ((Ascii
+                                                                    (true,
+                                                                    false,
+                                                                    false,
+                                                                    false,
+                                                                    false,
+                                                                    false,
+                                                                    true,
+                                                                    false)),
+                                                                    (String
+                                                                    ((Ascii
+                                                                    (false,
+                                                                    false,
+                                                                    true,
+                                                                    false,
+                                                                    true,
+                                                                    false,
+                                                                    true,
+                                                                    false)),
+                                                                    (String
+                                                                    ((Ascii
+                                                                    (true,
+                                                                    true,
+                                                                    false,
+                                                                    false,
+                                                                    true,
+                                                                    false,
+                                                                    true,
+                                                                    false)),
+                                                                    EmptyString))))))))))) :: (
+                                                                    (kw
+                                                                    (String
+                                                                    ((Ascii
+                                                                    (false,
+                                                                    false,
+                                                                    false,
+                                                                    false,
+                                                                    true,
+                                                                    true,
+                                                                    false,
+                                                                    false)),
+                                                                    EmptyString))) :: (
+                                                                    (r_num
+                                                                    (N.of_nat
+                                                                    s1.leased)) :: (
+                                                                    (r_num
+                                                                    (N.of_nat
+                                                                    s1.backlog)) :: []))))))
+                                                            else (st, cs_bad))
+
+(** val cs_lines : cs_state -> str list list -> str list **)
+
+let rec cs_lines st = function
+| [] -> []
+| l :: r -> let (st', out) = cs_op st l in out :: (cs_lines st' r)
+
+(** val cs_case : (str * str list) -> str list **)
+
+let cs_case c =
+  (fst c) :: (app (cs_lines cs_init (map tokens (snd c)))
+               ((kw (String ((Ascii (true, false, true, false, false, false,
+                  true, false)), (String ((Ascii (false, true, true, true,
+                  false, false, true, false)), (String ((Ascii (false, false,
+                  true, false, false, false, true, false)), EmptyString))))))) :: []))
+
+(** val cs_file : str -> str **)
+
+let cs_file text =
+  join_nl (flat_map cs_case (cases_of (split_on nl text) None))
